@@ -1,6 +1,329 @@
-//! C14 — monitor not written yet.
-use crate::ctx::Ctx;
+//! C14 — customer messages reuse no value the merchant has seen and expose no secret.
+//!
+//! Multi-channel histories are executed with every message recorded; an offline checker then
+//! walks the log in order: no 32/48/96-byte atom of a customer-to-merchant message may equal an
+//! atom of any earlier message (either direction) or of the public parameters, and none may equal
+//! a secret scalar held in the customer state around that step (minus what the step discloses by
+//! design).
+
+use crate::ctx::{guard, hex, Ctx};
+use crate::fixtures::{self, Merchant};
+use crate::props::c03::waiting_for;
+use crate::props::c04::candidate_amounts;
+use crate::props::util::*;
+use crate::refs::ledger_apply;
+use crate::session::{amount, new_channel_id, MsgRec, Sess, Stage};
+use crate::tracer::{trace, Kind, Trace};
+use crate::wire::{dec, enc, rand_g1};
+use bls12_381::Scalar;
+use rand_core::{CryptoRng, RngCore};
+use serde_json::json;
+use std::collections::{BTreeSet, HashMap};
+use zkabacus_crypto as zk;
+
+#[derive(Clone)]
+struct LogEntry {
+    channel: usize,
+    dir: &'static str,
+    kind: &'static str,
+    bytes: Vec<u8>,
+    /// secret scalars (bytes) in the customer's state around the step, with their paths
+    secrets: Vec<(String, Vec<u8>)>,
+}
+
+fn trace_msg(kind: &str, b: &[u8]) -> Result<Trace, String> {
+    match kind {
+        "establish_proof" => trace(&dec::<zk::EstablishProof>(b)?),
+        "closing_signature" => trace(&dec::<zk::ClosingSignature>(b)?),
+        "pay_token" => trace(&dec::<zk::PayToken>(b)?),
+        "nonce" => trace(&dec::<zk::Nonce>(b)?),
+        "pay_proof" => trace(&dec::<zk::PayProof>(b)?),
+        "revocation_pair" => trace(&dec::<zk::revlock::RevocationPair>(b)?),
+        "revocation_blinding_factor" => trace(&dec::<zk::revlock::RevocationLockBlindingFactor>(b)?),
+        "closing_message" => trace(&dec::<zk::customer::ClosingMessage>(b)?),
+        _ => Err(format!("unknown message kind {}", kind)),
+    }
+}
+
+fn stage_trace(s: &Stage) -> Result<Trace, String> {
+    match s {
+        Stage::None => Err("no stage".into()),
+        Stage::Requested(x) => trace(x),
+        Stage::Inactive(x) => trace(x),
+        Stage::Ready(x) => trace(x),
+        Stage::Started(x) => trace(x),
+        Stage::Locked(x) => trace(x),
+    }
+}
+
+/// every scalar of the state bytes plus the scalar encodings of its balances, minus `disclosed`
+fn secrets_of(s: &Stage, disclosed: &[&str]) -> Vec<(String, Vec<u8>)> {
+    let mut v = vec![];
+    let Ok(t) = stage_trace(s) else { return v };
+    for a in &t.atoms {
+        if disclosed.iter().any(|d| *d == a.fpath) {
+            continue;
+        }
+        if a.is_scalar() {
+            v.push((format!("{}:{}", s.name(), a.fpath), t.atom_bytes(a).to_vec()));
+        } else if a.kind == Kind::U64 {
+            let bal = le64(t.atom_bytes(a));
+            v.push((format!("{}:{}(as scalar)", s.name(), a.fpath), Scalar::from(bal).to_bytes().to_vec()));
+        }
+    }
+    v
+}
+
+struct Chan {
+    s: Sess,
+    closed: bool,
+    payments: usize,
+}
+
+fn pull(log: &mut Vec<LogEntry>, ch: usize, s: &Sess, from: usize, secrets: &[(String, Vec<u8>)]) {
+    for r in &s.log[from..] {
+        let r: &MsgRec = r;
+        log.push(LogEntry {
+            channel: ch,
+            dir: r.dir,
+            kind: r.kind,
+            bytes: r.bytes.clone(),
+            secrets: if r.dir == "c2m" { secrets.to_vec() } else { vec![] },
+        });
+    }
+}
+
+fn bad_reply(rng: &mut impl RngCore) -> Vec<u8> {
+    let mut b = rand_g1(rng).to_compressed().to_vec();
+    b.extend_from_slice(&rand_g1(rng).to_compressed());
+    b
+}
+
+/// advance channel `ch` by one protocol round trip; returns false when nothing more can be done
+fn advance(c: &mut Ctx, log: &mut Vec<LogEntry>, ch: usize, chan: &mut Chan, rng: &mut (impl RngCore + CryptoRng), ctxb: &[u8], cust0: u64, merch0: u64) -> Result<bool, String> {
+    let from = chan.s.log.len();
+    let name = chan.s.stage.name();
+    // occasionally a refused reply first (it is part of the merchant's view of the customer)
+    if matches!(name, "requested" | "inactive" | "started" | "locked") && rng.next_u32() % 4 == 0 && waiting_for(&chan.s.stage).is_ok() {
+        let bad = bad_reply(rng);
+        let _ = match name {
+            "requested" => chan.s.c_complete(&bad)?,
+            "inactive" => chan.s.c_activate(&bad)?,
+            "started" => chan.s.c_lock(&bad)?.is_some(),
+            _ => chan.s.c_unlock(&bad)?,
+        };
+        log.push(LogEntry { channel: ch, dir: "m2c", kind: "closing_signature", bytes: bad, secrets: vec![] });
+        c.count("refused_replies_logged", 1);
+    }
+    match name {
+        "requested" => {
+            // the establish proof was logged at request time
+            let proof = chan.s.log.iter().find(|r| r.kind == "establish_proof").map(|r| r.bytes.clone()).ok_or("no establish proof")?;
+            let sig = chan.s.m_initialize(rng, cust0, merch0, &proof, ctxb)?.ok_or("honest establish refused")?;
+            if !chan.s.c_complete(&sig)? {
+                return Err("honest closing signature refused".into());
+            }
+        }
+        "inactive" => {
+            let tok = chan.s.m_activate(rng)?;
+            if !chan.s.c_activate(&tok)? {
+                return Err("honest pay token refused".into());
+            }
+        }
+        "ready" => {
+            let (cust, merch) = chan.s.ledger;
+            let cands: Vec<i64> = candidate_amounts(cust, merch, rng).into_iter().filter(|a| ledger_apply(cust, merch, *a).is_ok()).collect();
+            let a = cands[(rng.next_u32() as usize) % cands.len()];
+            let before = secrets_of(&chan.s.stage, &["state/nonce"]);
+            let r = chan.s.c_start(rng, amount(a)?, ctxb)?;
+            let (nonce, proof) = r.map_err(|e| format!("in-range start refused: {:?}", e))?;
+            // secrets around the Start step: everything before and after, except the old nonce
+            let mut sec = before;
+            sec.extend(secrets_of(&chan.s.stage, &["old_state/nonce"]));
+            pull(log, ch, &chan.s, from, &sec);
+            let from2 = chan.s.log.len();
+            let sig = chan.s.m_allow(rng, amount(a)?, &nonce, &proof, ctxb)?.ok_or("honest pay proof refused")?;
+            let _ = sig;
+            pull(log, ch, &chan.s, from2, &[]);
+            chan.payments += 1;
+            return Ok(true);
+        }
+        "started" => {
+            let sig = chan.s.log.iter().rev().find(|r| r.kind == "closing_signature").map(|r| r.bytes.clone()).ok_or("no closing signature")?;
+            let disclosed = ["old_state/revocation_pair/lock", "old_state/revocation_pair/secret/secret", "blinding_factors/for_old_revocation_lock"];
+            let before = secrets_of(&chan.s.stage, &disclosed);
+            let (pair, bf) = chan.s.c_lock(&sig)?.ok_or("honest closing signature refused (pay)")?;
+            let mut sec = before;
+            sec.extend(secrets_of(&chan.s.stage, &[]));
+            pull(log, ch, &chan.s, from, &sec);
+            let from2 = chan.s.log.len();
+            let _tok = chan.s.m_complete(rng, &pair, &bf)?.ok_or("honest revocation refused")?;
+            pull(log, ch, &chan.s, from2, &[]);
+            return Ok(true);
+        }
+        "locked" => {
+            let tok = chan.s.log.iter().rev().find(|r| r.kind == "pay_token").map(|r| r.bytes.clone()).ok_or("no pay token")?;
+            if !chan.s.c_unlock(&tok)? {
+                return Err("honest pay token refused (pay)".into());
+            }
+        }
+        _ => return Ok(false),
+    }
+    pull(log, ch, &chan.s, from, &[]);
+    Ok(true)
+}
+
+fn close_channel(log: &mut Vec<LogEntry>, ch: usize, chan: &mut Chan, rng: &mut (impl RngCore + CryptoRng)) -> Result<(), String> {
+    let lock_path = match chan.s.stage {
+        Stage::Started(_) => "old_state/revocation_pair/lock",
+        _ => "state/revocation_pair/lock",
+    };
+    let secrets = secrets_of(&chan.s.stage, &[lock_path]);
+    if let Some(cm) = chan.s.stage.close_from_copy(rng)? {
+        log.push(LogEntry { channel: ch, dir: "c2m", kind: "closing_message", bytes: enc(&cm), secrets });
+    }
+    chan.closed = true;
+    Ok(())
+}
+
+/// offline checker over the recorded log
+fn check_log(c: &mut Ctx, m: &Merchant, log: &[LogEntry], label: &str) {
+    let mut seen: HashMap<Vec<u8>, String> = HashMap::new();
+    match trace(&m.ccfg) {
+        Ok(t) => {
+            for a in &t.atoms {
+                if matches!(a.kind, Kind::G1 | Kind::G2 | Kind::B32) {
+                    let _ = seen.insert(t.atom_bytes(a).to_vec(), format!("parameters:{}", a.fpath));
+                }
+            }
+        }
+        Err(e) => return c.inconclusive(&e),
+    }
+    let mut atoms_logged = seen.len();
+    let mut checked = 0;
+    for (i, e) in log.iter().enumerate() {
+        let t = match trace_msg(e.kind, &e.bytes) {
+            Ok(t) => t,
+            Err(_) if e.dir == "m2c" => continue, // injected garbage need not decode
+            Err(err) => return c.inconclusive(&format!("C14: cannot trace logged {}: {}", e.kind, err)),
+        };
+        let prov = format!("{}#{}:ch{}:{}", e.dir, i, e.channel, e.kind);
+        if e.dir == "c2m" {
+            c.eval();
+            c.distinct(&format!("{}/{}/{}", label, i, e.kind));
+            checked += 1;
+            if seen.is_empty() {
+                c.inconclusive("C14: nothing to compare against");
+            }
+            let secret_map: HashMap<&[u8], &str> = e.secrets.iter().map(|(p, b)| (b.as_slice(), p.as_str())).collect();
+            for a in &t.atoms {
+                if !matches!(a.kind, Kind::G1 | Kind::G2 | Kind::B32) {
+                    continue;
+                }
+                // the channel id is disclosed by design at establishment and closing
+                if a.is_raw32() || a.fpath.ends_with("channel_id") {
+                    continue;
+                }
+                let b = t.atom_bytes(a);
+                if let Some(earlier) = seen.get(b) {
+                    c.violation(
+                        &format!("C14 value-reused message={} atom={} first-seen-in={}", e.kind, a.fpath, earlier.split(':').last().unwrap_or("").to_string() + "/" + earlier.split(':').next().unwrap_or("")),
+                        json!({"message": prov, "atom": a.path, "value": hex(b), "first_seen": earlier}),
+                    );
+                }
+                if a.kind == Kind::B32 {
+                    if let Some(p) = secret_map.get(b) {
+                        c.violation(
+                            &format!("C14 secret-exposed message={} atom={} secret={}", e.kind, a.fpath, p),
+                            json!({"message": prov, "atom": a.path, "secret_path": p, "value": hex(b)}),
+                        );
+                    }
+                }
+            }
+            c.count(&format!("checked[{}]", e.kind), 1);
+            c.count("secrets_compared", e.secrets.len() as i64);
+        }
+        for a in &t.atoms {
+            if matches!(a.kind, Kind::G1 | Kind::G2 | Kind::B32) && !(a.is_raw32() || a.fpath.ends_with("channel_id")) {
+                let _ = seen.entry(t.atom_bytes(a).to_vec()).or_insert_with(|| format!("{}:{}", prov, a.fpath));
+                atoms_logged += 1;
+            }
+        }
+    }
+    c.count("atoms_logged", atoms_logged as i64);
+    c.count("messages_checked", checked);
+}
+
+fn run_group(c: &mut Ctx, m: &'static Merchant, name: &str, nchan: usize, rounds: usize) {
+    let mut rng = c.rng(name);
+    let mut log: Vec<LogEntry> = vec![];
+    let mut chans: Vec<Chan> = vec![];
+    let mut inits = vec![];
+    let boundary = [(10u64, 1000u64), (0, 0), (0, 5), (i64::MAX as u64, 0), (1 << 40, 1 << 40)];
+    for ch in 0..nchan {
+        let (cust, merch) = if rng.next_u32() % 2 == 0 { boundary[(rng.next_u32() as usize) % boundary.len()] } else { (shaped_u64(&mut rng) >> 1, shaped_u64(&mut rng) >> 1) };
+        let ctxb = format!("{}/{}", name, ch).into_bytes();
+        let cid = new_channel_id(m, &mut rng, b"m", b"c");
+        let (s, _proof) = match Sess::request(m, &mut rng, cid, cust, merch, &ctxb) {
+            Ok(x) => x,
+            Err(e) => return c.inconclusive(&e),
+        };
+        let sec = secrets_of(&s.stage, &[]);
+        pull(&mut log, ch, &s, 0, &sec);
+        chans.push(Chan { s, closed: false, payments: 0 });
+        inits.push((cust, merch, ctxb));
+    }
+    for _ in 0..rounds {
+        let ch = (rng.next_u32() as usize) % nchan;
+        if chans[ch].closed {
+            continue;
+        }
+        // a customer may stop and close at any stage that offers close()
+        if chans[ch].s.stage.name() != "requested" && rng.next_u32() % 12 == 0 {
+            if let Err(e) = close_channel(&mut log, ch, &mut chans[ch], &mut rng) {
+                return c.inconclusive(&e);
+            }
+            c.count(&format!("closed_from[{}]", chans[ch].s.stage.name()), 1);
+            continue;
+        }
+        let (cust, merch, ctxb) = inits[ch].clone();
+        match advance(c, &mut log, ch, &mut chans[ch], &mut rng, &ctxb, cust, merch) {
+            Ok(_) => {}
+            Err(e) => return c.inconclusive(&format!("C14: honest step failed ({}) — C04's subject", e)),
+        }
+    }
+    // every channel still open closes at the end, from whatever stage it is in
+    for ch in 0..nchan {
+        if !chans[ch].closed && chans[ch].s.stage.name() != "requested" {
+            let st = chans[ch].s.stage.name();
+            if let Err(e) = close_channel(&mut log, ch, &mut chans[ch], &mut rng) {
+                return c.inconclusive(&e);
+            }
+            c.count(&format!("closed_from[{}]", st), 1);
+        }
+    }
+    c.count("payments", chans.iter().map(|x| x.payments as i64).sum());
+    check_log(c, m, &log, name);
+    let kinds: BTreeSet<String> = log.iter().map(|e| format!("{}:{}", e.dir, e.kind)).collect();
+    c.sample(json!({"group": name, "channels": nchan, "messages": log.len(), "kinds": kinds,
+                     "order_head": log.iter().take(24).map(|e| format!("ch{} {} {}", e.channel, e.dir, e.kind)).collect::<Vec<_>>()}));
+}
 
 pub fn run(c: &mut Ctx) {
-    c.inconclusive("C14: monitor not written yet");
+    c.note("rule", json!("groups of 2-4 channels interleaved under one merchant; payments of either sign and zero; refused replies; closes from every stage that offers close(); the complete message log (both directions) plus the public parameters is checked offline in order. Distinct = distinct customer-to-merchant messages checked, each against a non-empty set of earlier atoms."));
+    let m = match fixtures::merchant(c.seed, "m0") {
+        Ok(m) => m,
+        Err(e) => return c.inconclusive(&e),
+    };
+    let groups = c.tier.pick(32usize, 400);
+    let rounds = c.tier.pick(30usize, 90);
+    for g in 0..groups {
+        let name = format!("group{}", g);
+        c.case(&name, |c| {
+            let nchan = 2 + g % 3;
+            if let Err(p) = guard(|| run_group(c, m, &name, nchan, rounds)) {
+                c.violation(&format!("C14 panic loc={}", repo_rel(&p.location)), json!({"panic": p.message}));
+            }
+        });
+    }
 }
